@@ -350,6 +350,16 @@ def run(ck):
             states.append(('%s:%s_%s' % (oname, 'pipe' if stn != 'sockgone' else 'socket', {'gone': 'reader_gone', 'sockgone': 'peer_gone', 'full': 'full_and_unread'}[stn]),
                            cfg[oname + '/default'], 0, None, '%s:%s' % (stn, fdn)))
     states.append(('file:other_output_but_std_streams_gone', fcfg, 0, None, 'gone:12'))
+    # stdout / stderr is a terminal whose output is stopped (flow control) and that nobody reads
+    for oname, fdn in (('stdout', '1'), ('stderr', '2')):
+        states.append(('%s:terminal_with_output_stopped' % oname, cfg[oname + '/default'], 0, None, 'ttystopped:' + fdn))
+    # another process holds an exclusive flock() on the (perfectly writable) log file: a log shipper, a stopped process
+    def hold_flock(env):
+        import fcntl
+        f = open(os.path.join(env.w, 'log'), 'ab')
+        fcntl.flock(f, fcntl.LOCK_EX)
+        env.socks.append(f)          # kept open (and locked) for the duration of the run; Env.close() closes it
+    states.append(('file:log_file_flocked_by_another_process', fcfg, 0, hold_flock))
     big = '[snoopy]\ndatasource_message_max_length = 20000\nlog_message_max_length = 20000\nmessage_format = %%{env:M}\noutput = %s\n'
     for oname in ('stdout', 'stderr'):
         fdn = '1' if oname == 'stdout' else '2'
